@@ -44,18 +44,13 @@ def wid3(ctx, c):
                 "%s claims negative magnitudes up to %d; the field holds down to -%d only" % (meth, nb, neg_max), where)
         c.check(pb <= pos_max, "%s.%s:positive" % (NV, meth), "value <= %d" % pos_max, "accepts %d (limit %d)" % (pb, pos_max),
                 "%s claims positive values up to %d; the signed field holds up to %d only" % (meth, pb, pos_max), where)
-    # get_negative: fold the two's complement expression for every width and boundary magnitude
+    # get_negative: the method folded for every width and boundary magnitude (all return statements, helpers included)
     f = repo.method(NV, "get_negative", inherited=False)
     where = repo.loc(f, f.node)
-    last = body_without_doc(f.node)[-1]
     params = [p for p in f.params if p != "self"]
-    expr = last.value if isinstance(last, ast.Return) else None
-    if expr is None:
-        c.undecided("get_negative", "no-return", "", where)
-    else:
+    if True:
         bad = None
         undec = None
-        width_aware = bool(params) or "size_hint" in U(f.node)
         cases = []
         for n in (1, 2, 15, 16, 17, 127, 128):
             cases.append((2, n, 0x100 - n))
@@ -64,17 +59,18 @@ def wid3(ctx, c):
             cases.append((4, n, 0x10000 - n))
         for n in (129, 255, 256, 32768):
             cases.append((None, n, 0x10000 - n))
+        from ..consteval import Raised as _Rg
         for size, n, want in cases:
-            env = {"self.int": n, "self.size_hint": size, "self.negative": True}
-            for p in params:
-                env[p] = size
+            st_ = {"self.int": n, "self.size_hint": size, "self.negative": True}
             try:
-                got = fold(expr, env)
+                got = fold_method(ctx, NV, "get_negative", st_, tuple([size] if params else []))
             except NotConst as e:
                 undec = str(e)
                 break
+            except _Rg as e:
+                got = "raises %s" % e.name
             if got != want:
-                bad = (size, n, got, want)
+                bad = (size, n, got if isinstance(got, int) else -1, want)
                 break
         if undec:
             c.undecided("get_negative", "expression-not-foldable", undec, where)
@@ -255,6 +251,9 @@ def wid5(ctx, c):
                     elif fn == "ord":
                         conv = "ord"
             n += 1
+            if conv is None:
+                c.undecided("__init__:%s" % cur, "conversion-not-recognised", "", repo.loc(init, st))   # the values themselves are decided by WID-8
+                continue
             c.check(conv == RADIX[cur], "__init__:%s" % cur, "converted with %s" % RADIX[cur], "converted with %s" % conv,
                     "text matched by %s is converted with %s, it must be %s" % (cur, conv, RADIX[cur]), repo.loc(init, st))
             cur = None
@@ -328,6 +327,16 @@ def wid1(ctx, c):
                       % U(n.value), repo.loc(fa, n))
     # the substitution applies to every operand whose value is a label: an extra condition leaves some of them holding the statement index
     for n in ast.walk(_fl(repo, fa, depth=2)):
+        if isinstance(n, ast.If) and any(isinstance(x, ast.Assign) and U(x.targets[0]).endswith("code_pkg.additional") and
+                                         "calculate_address_offset" in U(x.value) for x in n.body):
+            conj = n.test.values if isinstance(n.test, ast.BoolOp) and isinstance(n.test.op, ast.And) else [n.test]
+            extra = [U(v) for v in conj if not re.fullmatch(r"self\.operand\.value\.is_address_expression\(\)", U(v))]
+            if extra and len(extra) < len(conj):
+                c.finding("Statement.fix_addresses:expression-guard", "a label+n operand is evaluated only when %s" % " and ".join(extra)[:70],
+                          "fix_addresses evaluates a label+/-constant operand after layout only when `%s` also holds: other operand kinds carrying such an expression (immediate, indexed "
+                          "offsets) keep their unevaluated value and emit no or wrong operand bytes" % " and ".join(extra), repo.loc(fa, n))
+            elif not extra:
+                c.ok("Statement.fix_addresses:expression-guard", "every operand whose value is label+/-n is evaluated", repo.loc(fa, n))
         if isinstance(n, ast.If) and any(isinstance(x, ast.Assign) and U(x.targets[0]).endswith("code_pkg.additional") and
                                          re.fullmatch(r"statements\[[^\]]+\]\.code_pkg\.address", U(x.value)) for x in n.body):
             conj = n.test.values if isinstance(n.test, ast.BoolOp) and isinstance(n.test.op, ast.And) else [n.test]
@@ -446,6 +455,16 @@ def lay5(ctx, c):
             inner = [x for x in ast.walk(n) if isinstance(x, ast.For) and x is not n]
             exits = [x for x in ast.walk(n) if isinstance(x, (ast.Break, ast.Return)) and not any(x in list(ast.walk(i)) for i in inner)]
             sliced = isinstance(n.iter, ast.Subscript) or (isinstance(n.iter, ast.Call) and U(n.iter.func) in ("itertools.takewhile", "takewhile", "itertools.islice", "islice"))
+            if isinstance(n.iter, ast.Name) and n.iter.id != "self":
+                # a local copy of the statement list: nothing may be taken out of it before the loop
+                removed = [x for x in ast.walk(f.node) if isinstance(x, ast.Call) and isinstance(x.func, ast.Attribute) and U(x.func.value) == n.iter.id
+                           and x.func.attr in ("pop", "remove", "clear") and getattr(x, "lineno", 0) < n.lineno]
+                removed += [x for x in ast.walk(f.node) if isinstance(x, ast.Delete) and any(U(t_).startswith(n.iter.id + "[") for t_ in x.targets) and x.lineno < n.lineno]
+                if removed:
+                    c.finding("get_binary_array:statement-loop", "statements are taken out of the list before it is emitted (%s)" % U(removed[0])[:40],
+                              "get_binary_array removes statements from its copy of the list (`%s`) before emitting: those statements have addresses and sizes in the listing but "
+                              "no bytes in the image, and a program that is later extended changes the bytes already emitted for its beginning" % U(removed[0])[:50], repo.loc(f, removed[0]))
+                    continue
             if exits:
                 c.finding("get_binary_array:statement-loop", "early exit from the loop over the statements",
                           "get_binary_array leaves the loop over the statements early (%s): the statements after that point have addresses and sizes in the listing "
